@@ -222,8 +222,10 @@ func hotMain(base string, secs float64, ng, idx, iot int) {
 		fmt.Println(`{"error":"open failed"}`)
 		os.Exit(1)
 	}
-	var last atomic.Value
-	last.Store([]byte(nil))
+	// ring of the most recently acknowledged keys: reader g fetches the g-th most recent one, so that
+	// overlapping lookups concern DIFFERENT keys (shared state inside an index shard shows up)
+	var ring [64]atomic.Value
+	var acked int64
 	var gets, bad int64
 	var mu sync.Mutex
 	errs := map[string]int{}
@@ -246,7 +248,9 @@ func hotMain(base string, secs float64, ng, idx, iot int) {
 				mu.Unlock()
 				continue
 			}
-			last.Store(k)
+			n := atomic.LoadInt64(&acked)
+			ring[n%64].Store(k)
+			atomic.StoreInt64(&acked, n+1)
 			if i > 3000 {
 				i = 0
 			}
@@ -254,6 +258,7 @@ func hotMain(base string, secs float64, ng, idx, iot int) {
 	}()
 	for g := 0; g < ng; g++ {
 		wg.Add(1)
+		g := g
 		go func() {
 			defer wg.Done()
 			for {
@@ -262,7 +267,12 @@ func hotMain(base string, secs float64, ng, idx, iot int) {
 					return
 				default:
 				}
-				k := last.Load().([]byte)
+				n := atomic.LoadInt64(&acked)
+				back := int64(g % 8)
+				if n <= back {
+					continue
+				}
+				k, _ := ring[(n-1-back)%64].Load().([]byte)
 				if k == nil {
 					continue
 				}
